@@ -29,7 +29,7 @@ fn hx(s: &str) -> T {
 }
 
 /// Valid argument values per operator name (so the one-operator program returns a value).
-fn op_args(name: &str) -> Option<Vec<T>> {
+pub fn op_args(name: &str) -> Option<Vec<T>> {
     let g1 = hx(G1);
     // a G2 point obtained from the consensus evaluator itself: (g2_map "m")
     let g2 = match consensus(&T::list(&[T::a(&[0x39]), quote(T::a(b"m"))]), &T::nil()) {
